@@ -6,6 +6,7 @@ import io
 import json
 import os
 import random
+import re
 import shutil
 import subprocess
 import sys
@@ -46,7 +47,7 @@ def run_inprocess(argv):
             try:
                 M.main()
             except SystemExit as e:
-                code = e.code if isinstance(e.code, int) else 1
+                code = 0 if e.code is None else (e.code if isinstance(e.code, int) else 1)
     except Exception as e:      # an uncaught exception ends a real process with status 1
         code = 1
         err.write(repr(e))
@@ -61,6 +62,14 @@ def run_subprocess(argv, cwd):
     return r.returncode, r.stdout, r.stderr
 
 
+BAD_KINDS = ["account_hi", "account_neg", "interval_hi", "interval_nan", "mnemonic_words", "seed_len", "entropy_len",
+             "xprv_len", "file_dir", "no_command", "unknown_option", "option_after_command", "misspelt_option_after",
+             "extra_positional", "malformed_xprv", "xpub_given", "entropy_nonhex", "seed_nonhex", "write_fails"]
+NEEDS_CMD = {"mnemonic_words": "from-mnemonic", "seed_len": "from-bip39-seed", "entropy_len": "from-entropy-hex", "xprv_len": "from-master-xprv",
+             "malformed_xprv": "from-master-xprv", "xpub_given": "from-master-xprv", "entropy_nonhex": "from-entropy-hex", "seed_nonhex": "from-bip39-seed"}
+XPUB = "xpub661MyMwAqRbcFtXgS5sYJABqqG9YLmC4Q1Rdap9gSE8NqtwybGhePY2gZ29ESFjqJoCu1Rupje8YtGqsefD265TMg7usUDFdp6W1EGMcet8"
+
+
 def cases(rng, n):
     good_cmds = [("from-mnemonic", MN), ("from-entropy-hex", ENT), ("from-bip39-seed", SEED), ("from-master-xprv", XPRV)]
     out = []
@@ -73,15 +82,22 @@ def cases(rng, n):
         interval = (a, a + rng.choice([0, 1, 2]))
         password = rng.choice(["", "pw", "päss"]) if cmd in ("from-mnemonic", "from-entropy-hex") else ""
         file = rng.choice([None, "new", "new.json", "existing"])
-        bad = rng.choice([None, None, "account_hi", "account_neg", "interval_hi", "interval_nan", "mnemonic_words", "seed_len", "entropy_len",
-                          "xprv_len", "file_dir", "no_command", "unknown_option"])
+        k = len(out)
+        # every kind of bad vector once (in this order), then good and bad vectors at random
+        bad = BAD_KINDS[k] if k < len(BAD_KINDS) else rng.choice([None, None, None] + BAD_KINDS)
+        if bad in NEEDS_CMD:
+            cmd, arg = [g for g in good_cmds if g[0] == NEEDS_CMD[bad]][0]
+            testnet = testnet and cmd != "from-master-xprv"
+            password = password if cmd in ("from-mnemonic", "from-entropy-hex") else ""
+        if bad == "write_fails":
+            file = "dangling"
         out.append(dict(cmd=cmd, arg=arg, testnet=testnet, paranoia=paranoia, account=account, interval=interval, password=password, file=file, bad=bad))
     return out
 
 
 def harness(item):
     rng = random.Random(item.get("seed", 0) * 101 + 20)
-    n = 14 if item.get("tier") == "quick" else 150
+    n = len(BAD_KINDS) + (12 if item.get("tier") == "quick" else 150)
     bad = None
     evals = 0
 
@@ -106,7 +122,11 @@ def harness(item):
                         open(os.path.join(d, nme), "w").write("KEEP-" + nme)
             argv = []
             fpath = None
-            if c["file"]:
+            if c["file"] == "dangling":
+                fpath = os.path.join(d, "dangling")
+                os.symlink(os.path.join(d, "no_such_dir", "target.json"), fpath)
+                argv += ["--file", fpath]
+            elif c["file"]:
                 fpath = os.path.join(d, c["file"])
                 argv += ["--file", fpath]
             if c["testnet"]:
@@ -140,9 +160,30 @@ def harness(item):
                     arg, invalid = ENT + "00", True
                 if b == "xprv_len" and cmd == "from-master-xprv":
                     arg, invalid = XPRV[:-1], True
+                # values that pass the length validators but cannot build / generate a wallet
+                if b == "malformed_xprv":
+                    arg, invalid = XPRV[:-1] + ("j" if XPRV[-1] != "j" else "k"), True
+                if b == "xpub_given":
+                    arg, invalid = XPUB, True
+                if b == "entropy_nonhex":
+                    arg, invalid = "zz" * 16, True
+                if b == "seed_nonhex":
+                    arg, invalid = "zz" * 64, True
                 argv += [cmd, arg]
                 if c["password"]:
                     argv += ["--password", c["password"]]
+                # argparse only accepts the global options BEFORE the sub-command
+                if b == "option_after_command":
+                    argv += [rng.choice(["--paranoia", "--testnet"])]
+                    invalid = True
+                if b == "misspelt_option_after":
+                    argv += ["--acount", "5"]
+                    invalid = True
+                if b == "extra_positional":
+                    argv += ["extra"]
+                    invalid = True
+            if b == "write_fails":
+                invalid = True          # the target passes the file_ validator but cannot be written
             if b == "unknown_option":
                 argv = ["--frobnicate"] + argv
                 invalid = True
@@ -159,7 +200,7 @@ def harness(item):
                 check(after == before, f"{tag}: an existing file was modified or removed: {[f for f in keep if after[f] != before[f]]}")
                 if invalid:
                     check(code != 0, f"{tag}: invalid arguments but exit status 0")
-                    check(not any(k in out for k in ('"groups"', '"MASTER"', '"account_extended_keys"', MN)), f"{tag}: wallet data on stdout despite invalid arguments")
+                    check(not any(k in out for k in ('"groups"', '"MASTER"', '"account_extended_keys"', MN)) and not re.search(r"[xyztuv]p(rv|ub)[1-9A-HJ-NP-Za-km-z]{90,}", out), f"{tag}: wallet data on stdout despite invalid arguments / a failed run")
                     check(set(os.listdir(d)) == listing_before, f"{tag}: a file was created despite invalid arguments")
                 else:
                     check(code == 0, f"{tag}: valid arguments but exit status {code}: {err[-200:]}")
@@ -190,7 +231,7 @@ def harness(item):
     finally:
         shutil.rmtree(tmp, ignore_errors=True)
     o = dict(name="C20.bounded.process_level", kind="bounded", backend="bounded", verdict="HELD" if bad is None else "VIOLATED", evaluations=evals,
-             bound=f"{n} seeded argument vectors over the sub-commands and both sides of every validator bound (in-process; every 4th also as a subprocess); seed {item.get('seed', 0)}",
+             bound=f"{n} seeded argument vectors over the sub-commands and both sides of every validator bound, each of {len(BAD_KINDS)} kinds of bad vector at least once (in-process; every 4th also as a subprocess); seed {item.get('seed', 0)}",
              clause="C20.bounded.process_level")
     if bad:
         o.update(detail=bad, confirmed=True, replay=dict(confirmed=True, failed=[bad]))
